@@ -60,6 +60,11 @@ claim("C02", "model_checking",
       "Accept.tla states u < min(1, A) for the six rules as an integer comparison on a lattice where it is exact (energies, P dV, stress work, mu in units of kT ln2; V'/V and ideal-gas prefactors powers of two; u = 2^-(j+1/2), keeping every point a factor sqrt(2) from the boundary) including exponents far beyond +-709 and compensated extremes for a 2047-atom system; TLC checks the rule's theorems (favourable always accepted, hydrostatic isotension = isobaric, monotone in energy, SetThenTrial) and exports the expected verdict of every point; each point is realised on Canonical / HamiltonianCanonical / Isobaric / Isotension / GrandCanonical objects through their property setters after stale values were installed, with the uniform imposed through the simulation's own generator; any exception is a violation. Random off-lattice inputs (incl. sheared cells, arbitrary stress) are judged by a log-form mirror with a guard band.",
       "Trusted: TLC; the float realisation of lattice inputs (errors ~1e-15 relative against a sqrt(2) margin); scipy's CODATA constants for the thermal wavelength; strain taken as the criteria publishes it.", "5 C02")
 
+claim("C18", "model_checking",
+      "TLC on the exact rational lattice of the update functions (Adaptive.tla) + replay of every exported curve point and action history on real AdaptiveForceBias objects",
+      "With the committee variance an integer multiple n of the reference, tanh- and exp-updates are the rationals 2/(3^n+1) and 2^-n; Adaptive.tla states range, max at zero, midpoint at the reference, approach to min, monotonicity and history-independence (bounds re-assigned and variance changed between updates) as integer inequalities that TLC checks over every action sequence up to the bound; the curve and every sequence are replayed through update_delta()/step() with committee arrays constructed to give exactly n x reference (both schemes, scalar and per-coordinate), compared at 1e-12; random per-coordinate variances over 12 decades check range/monotonicity off the lattice.",
+      "Trusted: TLC, construction of committee arrays with a prescribed variation coefficient. Bound: n <= 18 (tanh) / 30 (exp) because 3^n, 2^n must fit TLC's 32-bit integers; histories up to 3 (quick) / 4 (thorough) actions.", "5 C18")
+
 NOT_YET = "check not built yet in this round (planned in DESIGN.md section 5); will be claimed once its spec and conformance harness exist"
 
 
